@@ -28,7 +28,10 @@ decisions taken here are Python's static ones:
     for a static method `m` of the class whose body is checked to be the expected wrapper around a primitive
     (`getKeyForExpressionStr`: sha1 of the encoded text) — it becomes a parameter of the interpreter (`Ctx.selfMeth`);
     `[]`, `{}`, `threading.Lock()` (module `threading` imported, not rebound) are `Expr.newList/newDict/newLock`;
-  * the name of `except T as name` must not occur outside that handler (Python unbinds it there).
+  * the name of `except T as name` must not occur outside that handler (Python unbinds it there);
+  * `@staticmethod`s of a class listed in `STATIC_METHODS` are dumped as plain functions; `OrderedDict()` (imported once from
+    `collections`, not rebound) is `Expr.newDict` (a dict keeps insertion order); `x.append(v)` / `x.remove(v)` as an
+    expression statement on a local variable is `Stmt.varCall`, `x[k] = v` on a local variable is `Stmt.setItemVar`.
 Everything outside the subset raises `Untranslatable` with file:line — a broken tie, never a skip.  The module is never
 imported or executed.
 """
@@ -67,7 +70,15 @@ CLASSES = [
                                  [('hashlib', 0, 'sha1'), ('compat', 2, 'ensureStringEncoded')])}),
 ]
 
-BUILTIN_FUNCS = ('int', 'bool', 'str', 'hasattr', 'issubclass', 'len')
+# static methods of a class dumped as plain functions (a static method sees its parameters and the module, not the class):
+# (file, lean name of the list, class, names in this order)
+STATIC_METHODS = [
+    ('SpecialAttributes.py', 'special_attributes', 'StyleAttribute', ['camelCaseToDashName', 'styleToDict']),
+]
+
+BUILTIN_FUNCS = ('int', 'bool', 'str', 'hasattr', 'issubclass', 'len', 'list')
+# methods that change their receiver: `x.m(args)` as an expression statement on a local variable is `Stmt.varCall`
+MUTATORS = ('append', 'remove', 'acquire', 'release')
 BINOPS = {ast.Add: '.add', ast.Sub: '.sub', ast.Mult: '.mul'}
 BUILTIN_EXC = ('BaseException', 'Exception', 'ValueError', 'TypeError', 'KeyError', 'IndexError', 'AttributeError')
 LOCAL_IMPORTS = {('utils', 'tostr'): 'tostr'}
@@ -253,7 +264,7 @@ def _check_tostr(repo):
 
 
 class _FunTranslator(object):
-    def __init__(self, mod, fn, earlier, prims=None, lean_name=None):
+    def __init__(self, mod, fn, earlier, prims=None, lean_name=None, static=False):
         self.mod = mod
         self.fn = fn
         self.earlier = earlier          # names of the module functions defined before this one
@@ -262,7 +273,10 @@ class _FunTranslator(object):
         a = fn.args
         if a.vararg or a.kwarg or a.kwonlyargs or getattr(a, 'posonlyargs', []) or a.kw_defaults:
             mod.fail(fn, 'parameter kinds outside the subset')
-        if fn.decorator_list:
+        if static:
+            if [ast.unparse(d) for d in fn.decorator_list] != ['staticmethod']:
+                mod.fail(fn, 'not a plain @staticmethod')
+        elif fn.decorator_list:
             mod.fail(fn, 'decorator')
         self.params = [p.arg for p in a.args]
         self.locals = set(self.params)
@@ -422,6 +436,9 @@ class _FunTranslator(object):
                     self.fail(n, 'starred argument')
             args = '[%s]' % ', '.join(self.expr(a, module_scope) for a in n.args)
             f = n.func
+            if isinstance(f, ast.Name) and f.id == 'OrderedDict' and not n.args and f.id not in self.locals \
+                    and ('collections', 0, 'OrderedDict') in self.mod.from_imports:
+                return '.newDict'
             if isinstance(f, ast.Name):
                 if not module_scope and f.id in self.locals:
                     return '(.callv (.var %s) %s)' % (lean_str(f.id), args)
@@ -482,6 +499,12 @@ class _FunTranslator(object):
                 return comment, ['%s.fieldCall %s %s %s [%s]' % (
                     pad, lean_str(self.self_name), lean_str(self.self_field(v.func.value)), lean_str(v.func.attr),
                     ', '.join(self.expr(a) for a in v.args))]
+            if isinstance(v, ast.Call) and isinstance(v.func, ast.Attribute) and isinstance(v.func.value, ast.Name) \
+                    and v.func.value.id in self.locals and v.func.value.id != self.self_name and v.func.attr in MUTATORS:
+                if v.keywords or any(isinstance(a, ast.Starred) for a in v.args):
+                    self.fail(st, 'keyword / starred arguments')
+                return comment, ['%s.varCall %s %s [%s]' % (pad, lean_str(v.func.value.id), lean_str(v.func.attr),
+                                                           ', '.join(self.expr(a) for a in v.args))]
             return comment, ['%s.expr %s' % (pad, self.expr(st.value))]
         if isinstance(st, ast.ImportFrom):
             return None                                         # checked in __init__
@@ -497,6 +520,13 @@ class _FunTranslator(object):
                 self.fail(st, 'slice / tuple assignment')
             return comment, ['%s.setItem %s %s %s %s' % (pad, lean_str(self.self_name), lean_str(self.self_field(t.value)),
                                                         self.expr(t.slice), self.expr(st.value))]
+        if isinstance(st, ast.Assign) and len(st.targets) == 1 and isinstance(st.targets[0], ast.Subscript) \
+                and isinstance(st.targets[0].value, ast.Name) and st.targets[0].value.id in self.locals \
+                and st.targets[0].value.id != self.self_name:
+            t = st.targets[0]
+            if isinstance(t.slice, (ast.Slice, ast.Tuple)):
+                self.fail(st, 'slice / tuple assignment')
+            return comment, ['%s.setItemVar %s %s %s' % (pad, lean_str(t.value.id), self.expr(t.slice), self.expr(st.value))]
         if isinstance(st, ast.Delete):
             if len(st.targets) != 1 or not isinstance(st.targets[0], ast.Subscript) \
                     or self.self_field(st.targets[0].value) is None or isinstance(st.targets[0].slice, (ast.Slice, ast.Tuple)):
@@ -665,6 +695,26 @@ def generate_code(repo):
             parts.append('')
             names.append(ln)
         parts.append('/-- %s: the dumped methods of class %s -/' % (rel, cls_name))
+        parts.append('def %s : List Fun :=\n  [%s]' % (lean_name, ',\n   '.join(names)))
+        parts.append('')
+    for rel, lean_name, cls_name, wanted in STATIC_METHODS:
+        mod = _Module(repo, rel)
+        cls = mod.classes.get(cls_name)
+        if cls is None:
+            raise Untranslatable('%s: no top-level class %s' % (rel, cls_name))
+        defs = {}
+        for st in ast.walk(cls):
+            if isinstance(st, ast.FunctionDef):
+                defs.setdefault(st.name, []).append(st)
+        names = []
+        for m in wanted:
+            if len(defs.get(m, [])) != 1 or defs[m][0] not in cls.body:
+                raise Untranslatable('%s: class %s does not define %s exactly once' % (rel, cls_name, m))
+            ln = '%s_%s_ast' % (cls_name, m.strip('_'))
+            parts.append(_FunTranslator(mod, defs[m][0], [], lean_name=ln, static=True).translate())
+            parts.append('')
+            names.append(ln)
+        parts.append('/-- %s: the dumped static methods of class %s -/' % (rel, cls_name))
         parts.append('def %s : List Fun :=\n  [%s]' % (lean_name, ',\n   '.join(names)))
         parts.append('')
     parts.append('end AHP.Gen.Code')
